@@ -237,7 +237,7 @@ pub fn cmd_abi2(a: &[&str]) -> String {
         if ctx.is_null() {
             return format!("rust=- c=open_err:kind={}", err.kind as i32);
         }
-        if mode == "growbound" {
+        if mode == "growbound" || mode == "okthenbreach" || mode == "syncthenunknown" {
             // both clients answer once on the first record, then the daemon publishes a record whose bound grew by far more than the
             // time between the calls (the interval's lower end moves back): both must follow it
             set_clock(real, mono);
@@ -300,6 +300,20 @@ pub fn cmd_abi2(a: &[&str]) -> String {
                 f.write_all(&record_bytes((100, 0), (1100, 0), 5000, 1000, 1)).unwrap();
                 f.seek(SeekFrom::Start(14)).unwrap();
                 f.write_all(&6u16.to_ne_bytes()).unwrap();
+            }
+            "okthenbreach" => {
+                // after a successful answer (Synchronized), the daemon publishes a FreeRunning record whose as-of is 99 s ahead of
+                // the caller's monotonic clock: the call has no answer to give (causality breach), least of all the previous one
+                f.seek(SeekFrom::Start(16)).unwrap();
+                f.write_all(&record_bytes((200, 0), (1200, 0), 5000, 1000, 2)).unwrap();
+                f.seek(SeekFrom::Start(14)).unwrap();
+                f.write_all(&4u16.to_ne_bytes()).unwrap();
+            }
+            "syncthenunknown" => {
+                f.seek(SeekFrom::Start(16)).unwrap();
+                f.write_all(&record_bytes((100, 0), (1100, 0), 5000, 1000, 0)).unwrap();
+                f.seek(SeekFrom::Start(14)).unwrap();
+                f.write_all(&4u16.to_ne_bytes()).unwrap();
             }
             "growbound" => {
                 f.seek(SeekFrom::Start(16)).unwrap();
